@@ -346,6 +346,8 @@ def gen_rev(rng, tier):
         case["enc"] = enc
     if rng.random() < 0.25 and (own_codec(mode) is not None or mode == "bytesio"):
         case["wrap"] = True
+    if own_codec(mode) is not None and rng.random() < 0.25:
+        case["nl"] = True
     if pos is None and binary_handle and rng.random() < 0.25:
         # default preseek=True must ignore where the cursor happens to be
         case["pre_cursor"] = rng.randint(0, len(expand(runs)))
@@ -447,6 +449,8 @@ def gen_jsonl(rng, tier):
     case = {"k": "jsonl", "runs": runs, "mode": mode, "ie": ie, "style": rng.randrange(9)}
     if rng.random() < 0.25 and (own_codec(mode) is not None or mode == "bytesio"):
         case["wrap"] = True
+    if own_codec(mode) is not None and rng.random() < 0.25:
+        case["nl"] = True
     if mode not in TEXT_MODES and rng.random() < 0.2:
         case["pre_cursor"] = rng.randint(0, len(expand(runs)))
     return case
@@ -496,8 +500,10 @@ def generate(rng, tier, n):
 class _Files:
     """Fresh file objects over the same content."""
 
-    def __init__(self, content, mode, wrap=False):
+    def __init__(self, content, mode, wrap=False, nl=False):
         self.content, self.mode, self.tmp, self.n, self.wrap = bytes(content), mode, None, 0, wrap
+        # newline='' : universal line-end detection without translation (same lines, terminators kept)
+        self.kw = {"newline": ""} if nl else {}
 
     def open(self):
         import io
@@ -506,7 +512,7 @@ class _Files:
             return io.BufferedReader(io.BytesIO(self.content)) if self.wrap else io.BytesIO(self.content)
         if self.wrap and own_codec(self.mode) is not None:
             # a text handle that is not a real file: TextIOWrapper over BytesIO
-            return io.TextIOWrapper(io.BytesIO(self.content), encoding=py_codec(own_codec(self.mode)))
+            return io.TextIOWrapper(io.BytesIO(self.content), encoding=py_codec(own_codec(self.mode)), **self.kw)
         if self.tmp is None:
             base = os.path.join(os.environ.get("VERIF_BUILD") or os.path.join(
                 os.path.dirname(os.path.dirname(os.path.abspath(__file__))), "build"), "tmp_c19")
@@ -522,10 +528,10 @@ class _Files:
         if self.mode == "rwfile":
             return open(self.path, "r+b")                      # io.BufferedRandom
         if self.mode == "latin1file":
-            return open(self.path, "r", encoding="latin-1")
+            return open(self.path, "r", encoding="latin-1", **self.kw)
         if self.mode in SBCS_MODES:
-            return open(self.path, "r", encoding=c19_breaks.SBCS[int(self.mode.split(":")[1])])
-        return open(self.path, "r", encoding="utf-8")
+            return open(self.path, "r", encoding=c19_breaks.SBCS[int(self.mode.split(":")[1])], **self.kw)
+        return open(self.path, "r", encoding="utf-8", **self.kw)
 
     def close(self):
         if self.tmp is not None:
@@ -593,7 +599,7 @@ def run_impl(case):
         if type(res) is not str:
             raise TypeError("indent returned %s" % type(res))
         return {"text": [ord(c) for c in res]}
-    files = _Files(content, case["mode"], bool(case.get("wrap")))
+    files = _Files(content, case["mode"], bool(case.get("wrap")), bool(case.get("nl")))
     try:
         if k == "rev":
             from boltons.jsonutils import reverse_iter_lines
@@ -857,7 +863,7 @@ def distribution(d, case, obs):
 def sample(case, obs):
     c = expand(case["runs"])
     s = {"kind": case["k"], "content_head": c[:40], "len": len(c)}
-    for key in ("mode", "enc", "wrap", "pos", "pre_cursor", "bs", "ie", "margin", "newline"):
+    for key in ("mode", "enc", "wrap", "nl", "pos", "pre_cursor", "bs", "ie", "margin", "newline"):
         if key in case:
             s[key] = case[key]
     s["obs"] = obs if len(str(obs)) < 600 else str(obs)[:600]
